@@ -40,14 +40,17 @@ Definition ffuel : nat := 700.
 (* ES5 10.4.2 + 10.5: bindings created by eval code are deletable (configurableBindings = true), those of
    global/function code are not; 11.4.1: delete of a deletable binding returns true and removes it.
    ids: 1 eval var (global code)  2 eval var (in a function)  3 eval function (global)  4 plain var
-        5 implicit global (assignment to an undeclared name)  6 eval function (in a function)  7 indirect eval var *)
+        5 implicit global (assignment to an undeclared name)  6 eval function (in a function)  7 indirect eval var
+        8 function declaration (global code)  9 plain var deleted from inside a function  10 function parameter *)
 Definition pin_spec (id : Z) : list Z :=
-  if (id =? 4) then [0; 1] else if (1 <=? id) && (id <=? 7) then [1; 0] else [].
+  if (id =? 4) || (id =? 9) || (id =? 10) then [0; 1] else if (id =? 8) then [0; 2]
+  else if (1 <=? id) && (id <=? 7) then [1; 0] else [].
 (* otto: every declaration goes through the same createBinding(name, deletable = false) / global property with
    configurable = false, whatever code declares it (cmplVariableDeclaration, cmplFunctionDeclaration) *)
 Definition pin_model (id : Z) : list Z :=
   if (id =? 5) then [1; 0]
-  else if (id =? 3) || (id =? 6) then [0; 2]
+  else if (id =? 9) || (id =? 10) then [0; 1]
+  else if (id =? 3) || (id =? 6) || (id =? 8) then [0; 2]
   else if (1 <=? id) && (id <=? 7) then [0; 1] else [].
 
 Definition val_eqb (a b : val) : bool :=
